@@ -10,6 +10,7 @@ import VrlProofs.Lemmas.C25Int
 import VrlProofs.Lemmas.C25Entries
 import VrlProofs.Lemmas.C25Time
 import VrlProofs.Lemmas.C25Ip
+import VrlProofs.Lemmas.C25IpInv
 import VrlProofs.Lemmas.C25Unflatten
 
 namespace C25
@@ -278,6 +279,60 @@ theorem aton_ntoa (n : Int) (h0 : 0 ≤ n) (h1 : n ≤ 4294967295) :
   simp only [ipAton, bytesLossy, hl, parseV4_showV4 _ _ _ _ ha hb hc hd, hu]
   congr 2
   omega
+
+open Ip in
+/-- C25 (aton, other direction): `ip_ntoa(ip_aton(s)) = s` for every byte string `s` that
+    `ip_aton` accepts — std's parser admits only the canonical dotted quad (no leading zeros,
+    no octet above 255, nothing else around), which is what `Display` prints. -/
+theorem ntoa_aton (s : List Nat) (n : Int) (h : ipAton (.bytes s) = .ok (.int n)) :
+    ipNtoa (.int n) = .ok (.bytes s) := by
+  simp only [ipAton, bytesLossy] at h
+  cases hp : parseV4 (Utf8.lossy s) with
+  | none => simp [hp] at h
+  | some o =>
+    simp only [hp, Res.ok.injEq, Value.int.injEq] at h
+    obtain ⟨a, b, c, d, ho, ha, hb, hc, hd, hs⟩ := parseV4_inv _ o hp
+    have hascii : ∀ x ∈ Utf8.lossy s, x < 128 := by
+      rw [hs]; exact showV4_ascii a b c d ha hb hc hd
+    have hss : s = showV4 [a, b, c, d] := by
+      rw [← lossy_ascii_out s hascii]; exact hs
+    obtain ⟨h1, h2⟩ := octets_u32 a b c d ha hb hc hd
+    subst ho
+    rw [← h]
+    have hnn : (0 : Int) ≤ (u32OfOctets [a, b, c, d] : Nat) := by omega
+    have hle : ((u32OfOctets [a, b, c, d] : Nat) : Int) ≤ 4294967295 := by omega
+    simp only [ipNtoa, hnn, hle, and_self, ↓reduceIte, Int.toNat_natCast, h1, hss]
+
+open Ip in
+/-- C25 (pton, text direction, IPv4): `ip_ntop(ip_pton(s)) = s` for every text that parses as an
+    IPv4 address. -/
+theorem ntop_pton_v4 (t : V6Text) (s o : List Nat) (hp : parseV4 (Utf8.lossy s) = some o) :
+    ∃ b, ipPton t (.bytes s) = .ok (.bytes b) ∧ ipNtop t (.bytes b) = .ok (.bytes s) := by
+  obtain ⟨a, b, c, d, ho, ha, hb, hc, hd, hs⟩ := parseV4_inv _ o hp
+  have hascii : ∀ x ∈ Utf8.lossy s, x < 128 := by
+    rw [hs]; exact showV4_ascii a b c d ha hb hc hd
+  have hss : s = showV4 [a, b, c, d] := by
+    rw [← lossy_ascii_out s hascii]; exact hs
+  refine ⟨[a, b, c, d], ?_, ?_⟩
+  · simp only [ipPton, bytesLossy, hs, parseIp_showV4 t a b c d ha hb hc hd]
+  · simp [ipNtop, hss]
+
+theorem specNtoa_model (s : List Nat) :
+    specNtoa s (Ip.ipAton (.bytes s)) ((Ip.ipAton (.bytes s)).bind Ip.ipNtoa) = true := by
+  unfold specNtoa
+  cases h : Ip.ipAton (.bytes s) with
+  | ok v =>
+    have hv : ∃ n, v = .int n := by
+      simp only [Ip.ipAton] at h
+      split at h
+      · split at h
+        · cases h; exact ⟨_, rfl⟩
+        · cases h
+      · cases h
+    obtain ⟨n, rfl⟩ := hv
+    simp [Res.bind, ntoa_aton s n h, restores]
+  | err => rfl
+  | panic => rfl
 
 theorem specAton_model (n : Int) :
     specAton n ((Ip.ipNtoa (.int n)).bind Ip.ipAton) = true := by
